@@ -15,6 +15,7 @@ mod ops_map;
 mod ops_ng;
 mod ops_parse;
 mod ops_pi;
+mod ops_vec;
 mod pipeline;
 mod props;
 mod repair;
